@@ -110,6 +110,15 @@ func c12Gen(o *out, r *rng, tier string) {
 }
 
 // ---- C12R: concurrent request streams while a history is applied (meant for the -race build) ----
+// many Upgrade values that are not "websocket": the request walks them between loading the state and routing
+var c12Upgrade = func() []string {
+	v := make([]string, 4000)
+	for i := range v {
+		v[i] = "h2c"
+	}
+	return v
+}()
+
 func c12RaceGen(o *out, r *rng, tier string) {
 	e := c11Setup()
 	n := 40
@@ -140,7 +149,7 @@ func c12RaceGen(o *out, r *rng, tier string) {
 					if k%2 == 0 {
 						ans = c11GRPC(m, c11FullName(c11Methods[k%len(c11Methods)]))
 					} else {
-						ans = c11HTTP(m, e.targets[k%len(e.targets)])
+						ans = c11HTTPWith(m, e.targets[k%len(e.targets)], c12Upgrade)
 					}
 					requests.Add(1)
 					if strings.HasPrefix(ans, "E") {
